@@ -38,6 +38,8 @@ def _m(t, p, b):
             t = t[:4]  # ignore the call-site tag of &mut-taking calls
         if not isinstance(t, tuple) or len(t) != len(p):
             return False
+        if len(p) == 3 and p[0] == "param" and t[0] == "param":
+            return _m(t[1], p[1], b)     # parameters are identified by position; their names are documentation
         if p and p[0] == "bin" and len(p) == 4 and isinstance(p[1], str) and p[1] in COMMUTATIVE and t[0] == "bin":
             for order in ((2, 3), (3, 2)):
                 b2 = dict(b)
